@@ -254,7 +254,10 @@ func (f *FuncCFG) assignedKeys(n ast.Node) []string {
 				keys = append(keys, objKey(o))
 			}
 		}
-	case *ast.Ident: // range Key/Value appear as bare nodes
+	case *ast.Ident: // range Key/Value appear as bare nodes (and so does a bare range operand, which is only read)
+		if rs, ok := f.ctx.Parent(s).(*ast.RangeStmt); ok && rs.X == ast.Expr(s) && rs.Key != ast.Expr(s) && rs.Value != ast.Expr(s) {
+			break
+		}
 		if o := objOf(f.Info, s); o != nil {
 			keys = append(keys, objKey(o))
 		}
